@@ -82,6 +82,7 @@ type World struct {
 	Clients []*Client
 
 	ledger       *ledger
+	handshake    func(*websocket.Config, *http.Request) error // created once, as cmd/main.go does
 	symOf        map[string]string // session uuid -> symbolic session name (differential checks)
 	lastActivity time.Duration     // last non-sync-clock traffic in either direction
 	gauge0       gauges
@@ -293,7 +294,10 @@ func (w *World) Connect(o ConnectOpts) *Client {
 	}
 	srv := websocket.Server{Handler: inner}
 	if !w.cfg.NoAuth {
-		srv.Handshake = hagallhttp.VerifyAuthToken(w.ctx, w.HDS)
+		if w.handshake == nil {
+			w.handshake = hagallhttp.VerifyAuthToken(w.ctx, w.HDS)
+		}
+		srv.Handshake = w.handshake
 	}
 	rw := &hijackWriter{conn: conn, header: http.Header{}}
 	w.sim.Logf("connect %s", c.Label)
